@@ -126,14 +126,15 @@ class Sector:
 
 
 def trial_state(sec, kind, wave_data):
-    """Fock vector of a library trial (real coefficients)."""
+    """Fock vector of a library trial (the ket whose bra the trial's overlap routine evaluates)."""
     if kind == "rhf":
         c = np.asarray(wave_data["mo_coeff"])
         return sec.det_state(c[:, : sec.nup], c[:, : sec.ndn])
     if kind in ("uhf", "uhf_cpmc"):
         return sec.det_state(np.asarray(wave_data["mo_coeff"][0]), np.asarray(wave_data["mo_coeff"][1]))
     if kind in ("ghf", "ghf_cpmc"):
-        return sec.ghf_state(np.asarray(wave_data["mo_coeff"]))
+        # the GHF routines contract with C^T (no conjugate): as a bra that is the determinant of conj(C)
+        return sec.ghf_state(np.conj(np.asarray(wave_data["mo_coeff"])))
     if kind == "noci":
         ci = np.asarray(wave_data["ci_coeffs_dets"][0])
         du, dd = np.asarray(wave_data["ci_coeffs_dets"][1][0]), np.asarray(wave_data["ci_coeffs_dets"][1][1])
